@@ -102,6 +102,50 @@ def effect_blocks(F, f, writes_only):
     return out
 
 
+def gate_error_ok(f, gate):
+    """the failing edge of the gate returns InvalidVecDimension{expected: dims, received: len(vector)} and no success"""
+    sw, eq, fail, va = gate
+    errs = [(b, t) for b, k, t in paths.ret_assigns(f) if k == 'err' and b in f.reachable(fail)]
+    good = False
+    detail = 'no InvalidVecDimension return on the failing edge'
+    for b, t in errs:
+        d = paths.agg_fields(t, 'error::Error', 'InvalidVecDimension')
+        if d:
+            exp_ok = dims_term(d.get('expected', ('unknown',)))
+            rec = len_of_param(f, d.get('received', ('unknown',)))
+            good = exp_ok and rec is not None and rec[1] == va[1]
+            detail = 'expected=%s received=%s' % (show(d.get('expected', ('unknown', ''))), show(d.get('received', ('unknown', ''))))
+    okgoal = [b for b, k, t in paths.ret_assigns(f) if k in ('ok', 'call', 'other')]
+    good = good and not any(x in f.reachable(fail) for x in okgoal)
+    byp = [b for b in okgoal if not paths.edge_dominates(f, sw, eq, b)]
+    return good, detail, byp
+
+
+def gate_of(F, f):
+    """the length gate of f: its own comparison, or a `?`-checked call to a helper that contains the gate.
+    -> (switch block, equal/ok successor, failing successor, description, helper or None)"""
+    g = find_gate(f)
+    if g is not None:
+        return g[0], g[1], g[2], 'own comparison', None, g
+    for c in f.calls():
+        for h in F.resolve_call(c):
+            if h.path == f.path or h.in_test:
+                continue
+            hg = find_gate(h)
+            if hg is None:
+                continue
+            # the helper's vector parameter is fed with f's vector parameter
+            fed = False
+            for i in range(len(c.args)):
+                a = strip(c.arg_term(i))
+                if a[0] == 'arg' and '[f32]' in f.local_ty(a[1]) and i + 1 == hg[3][1]:
+                    fed = True
+            arms = paths.result_arms(f, c)
+            if fed and 'ok' in arms and 'err' in arms and 'switch' in arms:
+                return arms['switch'], arms['ok'], arms['err'], 'helper `%s`' % h.path, h, hg
+    return None
+
+
 def r_gate(ctx):
     F = ctx.F
     rule = 'R-GATE'
@@ -111,32 +155,27 @@ def r_gate(ctx):
         f = F.one(path)
         if not ctx.need(f is not None, rule, path):
             continue
-        g = find_gate(f)
-        if g is None:
+        gt = gate_of(F, f)
+        if gt is None:
             ctx.bad(rule, path + '/gate', f.loc(), '`%s` has no exact comparison of vector.len() with the declared dimension' % path)
             continue
-        sw, eq, fail, va = g
+        sw, eq, fail, how, helper, inner = gt
         effs = effect_blocks(F, f, wo)
         ctx.need(len(effs) >= 1, rule, 'effects of ' + path)
         for b, c, what in effs:
             key = '%s/dominates/%s' % (path, what.split('::<')[0].split('::')[-1])
             good = paths.edge_dominates(f, sw, eq, b) and b not in f.reachable(fail)
-            ctx.check(good, rule, key, c.loc(), 'effect is dominated by the length gate\'s equal edge',
+            ctx.check(good, rule, key, c.loc(), 'effect is dominated by the length gate\'s equal edge (%s)' % how,
                       'in `%s` the effect `%s` can execute although vector.len() differs from the declared dimension' % (path, what))
-        # failing edge returns the right error with the right fields
-        errs = [(b, t) for b, k, t in paths.ret_assigns(f) if k == 'err' and b in f.reachable(fail)]
-        good = False
-        detail = 'no InvalidVecDimension return on the failing edge'
-        for b, t in errs:
-            d = paths.agg_fields(t, 'error::Error', 'InvalidVecDimension')
-            if d:
-                exp_ok = dims_term(d.get('expected', ('unknown',)))
-                rec = len_of_param(f, d.get('received', ('unknown',)))
-                good = exp_ok and rec is not None and rec[1] == va[1]
-                detail = 'expected=%s received=%s' % (show(d.get('expected', ('unknown', ''))), show(d.get('received', ('unknown', ''))))
-        okgoal = [b for b, k, t in paths.ret_assigns(f) if k in ('ok', 'call', 'other')]
-        good = good and not any(x in f.reachable(fail) for x in okgoal)
-        byp = [b for b in okgoal if not paths.edge_dominates(f, sw, eq, b)]
+        if helper is None:
+            good, detail, byp = gate_error_ok(f, inner)
+        else:
+            good, detail, byp0 = gate_error_ok(helper, inner)
+            good = good and not byp0
+            # in f: the error of the helper is propagated on the failing edge and every success is behind the ok edge
+            okgoal = [b for b, k, t in paths.ret_assigns(f) if k in ('ok', 'call', 'other')]
+            byp = [b for b in okgoal if not paths.edge_dominates(f, sw, eq, b)]
+            good = good and not any(x in f.reachable(fail) for x in okgoal)
         ctx.check(not byp, rule, path + '/no-success-bypass', f.loc(), 'every success return is dominated by the length gate',
                   '`%s` can return success without having compared vector.len() with the declared dimension (return at line %s)' % (path, [paths.block_line(f, b) for b in byp]))
         ctx.check(good, rule, path + '/error', f.loc(), 'failing edge returns InvalidVecDimension{%s}' % detail,
@@ -222,7 +261,14 @@ def r_sibling(ctx):
             if w and k is not None:
                 ki = key_info(c.arg_term(k))
                 val = c.arg_term(len(c.args) - 1)
-                out.append((ki[0] if ki else '?', strip_all(ki[1]) if ki else None, strip_all(ki[2]) if ki and ki[2] else None, strip_all(val)))
+                kind = ki[0] if ki else '?'
+                out.append((kind, strip_all(ki[1]) if ki else None, strip_all(ki[2]) if ki and ki[2] else None, strip_all(val) if kind == 'item' else None))
+        for c in f.calls():
+            for g in F.resolve_call(c):
+                if g.path != f.path and not g.in_test and g.path.startswith('writer::'):
+                    p = C06.mark_helper(F, g, {})
+                    if p is not None and p - 1 < len(c.args):
+                        out.append(('updated', strip_all(('field', ('deref', ('arg', 1, 'self')), 'index')), strip_all(c.arg_term(p - 1)), None))
         return sorted(out, key=repr)
     sa, sb = sig(a), sig(b)
     ctx.check(sa == sb and len(sa) == 2, rule, 'add_item~append_item', a.loc(),
